@@ -39,7 +39,103 @@ def patterns(g, tier):
                 continue
             key = tuple(s for s, pr in chars)
             pats.setdefault(method, {}).setdefault(key, cid)
+            PROVS.setdefault((method, key), tuple(pr for s, pr in chars))
     return pats
+
+
+PROVS = {}       # (method, pattern) -> provenance of each generated character (1 = random bytes, 8 = count)
+P_RBYTES, P_COUNT = 1, 8
+A64 = frozenset(b"./0123456789ABCDEFGHIJKLMNOPQRSTUVWXYZabcdefghijklmnopqrstuvwxyz")
+# alphabet of the salt / cost characters per method where the format restricts it (crypt.5); a generated setting with one
+# such character replaced by a filter-clean character outside the alphabet (and not '$') is malformed and must be refused.
+# md5crypt, sha256crypt, sha512crypt, sunmd5, sha1crypt accept any salt character; NT has neither salt nor cost.
+FIELD_ALPHABET = {
+    "yescrypt": {P_RBYTES: A64, P_COUNT: A64}, "gost_yescrypt": {P_RBYTES: A64, P_COUNT: A64}, "scrypt": {P_COUNT: A64},
+    "bcrypt": {P_RBYTES: A64, P_COUNT: DIGITS}, "bcrypt_a": {P_RBYTES: A64, P_COUNT: DIGITS}, "bcrypt_y": {P_RBYTES: A64, P_COUNT: DIGITS}, "bcrypt_x": {P_RBYTES: A64, P_COUNT: DIGITS},
+    "bsdicrypt": {P_RBYTES: A64, P_COUNT: A64}, "descrypt": {P_RBYTES: A64}, "bigcrypt": {P_RBYTES: A64},
+    "sha256crypt": {P_COUNT: DIGITS}, "sha512crypt": {P_COUNT: DIGITS}, "sunmd5": {P_COUNT: DIGITS}, "sha1crypt": {P_COUNT: DIGITS},
+}
+# scrypt: the library checks salt characters only up to the first '$' of the salt field and hashes the field as raw bytes;
+# a foreign character in the salt proper is refused, which the near-miss grid confirms via P_RBYTES as well
+FIELD_ALPHABET["scrypt"][P_RBYTES] = A64
+
+
+def near_miss_cells(m, g, tier):
+    """generated settings with exactly one salt / cost character replaced by the set of all filter-clean characters
+    outside that field's alphabet"""
+    entry = common.sym(m, "crypt_rn").name
+    cells, meta = [], {}
+    pats = patterns(g, tier)
+    for method, d in sorted(pats.items()):
+        fa = FIELD_ALPHABET.get(method)
+        row = next(r for r in g["rows"] if G.method_of_row(r) == method)
+        if not fa or row["prefix"] in K.UNCOVERED:
+            continue
+        items = sorted(d.items(), key=lambda kv: (len(kv[0]), kv[1]))
+        chosen = [items[0]] + ([items[-1]] if len(items) > 1 else [])
+        for pi, (key, src) in enumerate(chosen):
+            provs = PROVS[(method, key)]
+            for field, alpha in sorted(fa.items()):
+                pos = [i for i, pr in enumerate(provs) if pr & field and len(key[i] - alpha) == 0]
+                if not pos:
+                    continue
+                if tier == "quick" and len(pos) > 6:
+                    pos = sorted(set([pos[0], pos[1], pos[2], pos[3], pos[len(pos) // 2], pos[-1]]))
+                bad = K.CLEAN - alpha - frozenset(b"$")
+                for i in pos:
+                    k2 = list(key)
+                    k2[i] = frozenset(bad)
+                    if method in CONCRETISE_DIGITS:
+                        k2 = [frozenset([min(x)]) if (len(x) > 1 and x <= DIGITS) else x for x in k2]
+                    cid = "N%s#%d@%d" % (method, pi, i)
+                    c = K.crypt_cell(cid, entry, b"", setting_bytes=b"", headsets=k2, size=(32768, 32768), align=(0, 0))
+                    cells.append(c)
+                    meta[cid] = {"method": method, "pattern": tuple(k2), "pos": i, "field": "salt" if field == P_RBYTES else "cost", "row": row, "from": src}
+    return cells, meta
+
+
+def run_near_miss(tier="quick"):
+    key = ("nm", tier)
+    if key in _CACHE:
+        return _CACHE[key]
+    g = G.run(tier)
+    m, info = common.prog("shared")
+    cells, meta = near_miss_cells(m, g, tier)
+    kdf = [e for e in K.CONTRACTS["yescrypt_kdf"] if e.get("op") != "ret"] + [{"op": "ret", "lo": 0, "hi": 0}]
+    cfg = K.config(m, {"check_badsalt_chars": [{"op": "ret", "lo": 0, "hi": 0}], "yescrypt_kdf": kdf})
+    from . import unit_contracts
+    for k in unit_contracts.CONTRACTS:
+        cfg["contracts"].pop(k, None)
+    t0 = time.time()
+    res = xai.run_cells(info["bc"], cells, cfg, chunk=1)
+    out = {"res": res, "meta": meta, "wall": time.time() - t0, "ncells": len(cells)}
+    _CACHE[key] = out
+    return out
+
+
+def near_miss_oracle(chk, nm):
+    chk.rule("X-REJECT", "a generated setting with one salt / cost character replaced by a filter-clean character outside that field's alphabet is refused: no path of crypt_rn succeeds")
+    per = {}
+    for cid, c in sorted(nm["res"].items()):
+        mt = nm["meta"][cid]
+        if c["budget"]:
+            raise AnalysisBroken("near-miss cell %s exhausted its path budget" % cid)
+        soft = [a for p in c["paths"] for a in p["alarms"] if a["kind"] in ("MODEL", "BUDGET")]
+        if soft:
+            raise AnalysisBroken("near-miss cell %s: %s" % (cid, soft[0]["msg"]))
+        shown = xai.show([(s, 0) for s in mt["pattern"]])
+        succ = [p for p in c["paths"] if p["ret"].startswith("ptr:")]
+        if succ:
+            chk.fail("X-REJECT", "%s|%s|%d" % (mt["method"], mt["field"], mt["pos"]),
+                     "%s: the malformed setting %s (character %d of the %s field replaced by one of %s) is hashed instead of refused; result %s" % (
+                         mt["method"], shown, mt["pos"], mt["field"], "".join(sorted(chr(x) for x in mt["pattern"][mt["pos"]]))[:24] + "...", xai.show(succ[0].get("out", []))[:80]),
+                     "lib/", {"cell": cid})
+        elif not c["paths"]:
+            raise AnalysisBroken("near-miss cell %s produced no path" % cid)
+        else:
+            chk.ok("X-REJECT", cid, sample={"method": mt["method"], "setting": shown})
+            per[mt["method"]] = per.get(mt["method"], 0) + 1
+    return per
 
 
 def build_cells(m, g, tier):
@@ -90,6 +186,10 @@ def run(tier="quick"):
     # assumptions of the composition: the generated setting is filter-clean (proved by C10 X-CLEAN) and the KDF itself
     # does not fail for resource reasons (allocation failures are C15's subject)
     cfg = K.config(m, {"check_badsalt_chars": [{"op": "ret", "lo": 0, "hi": 0}], "yescrypt_kdf": kdf})
+    # generated settings have exact lengths: yescrypt's parsing helpers are interpreted as they are (no contract)
+    from . import unit_contracts
+    for k in unit_contracts.CONTRACTS:
+        cfg["contracts"].pop(k, None)
     t0 = time.time()
     cells.sort(key=lambda c: 0 if c["id"].startswith(("Xbcrypt", "Xbsdi")) else 1)
     res = xai.run_cells(info["bc"], cells, cfg, chunk=1)
